@@ -13,6 +13,9 @@ reachability with an edge filter that encodes their sanitizers (hashes, shape-on
 from collections import defaultdict
 from mir import callee, callee_names
 
+MUT_PLUMBING = {"iter_mut", "index_mut", "get_mut", "deref_mut", "as_mut", "zip", "enumerate", "next", "by_ref", "into_iter",
+                "skip", "take", "chunks_mut", "as_mut_slice", "borrow_mut", "last_mut", "first_mut", "split_at_mut", "rev"}
+
 SHAPE_CALLS = (
     "::len", "::is_empty", "::capacity",
 )
@@ -77,6 +80,7 @@ class FlowGraph:
         self.inn = defaultdict(list)
         self.fields = defaultdict(set)  # (body,local) -> fields seen
         self.ref_target = {}  # (body, local) -> place dict the local points to (single &-assignment)
+        self.field_ty = {}    # (body, local, field) -> type of that field
         self.calls = []  # (body_key, block, term, [callee body keys])
         self.trait_impls = defaultdict(list)  # trait method path -> impl method def paths
         for im in prog.impls:
@@ -105,7 +109,23 @@ class FlowGraph:
         f = first_field(p["pr"])
         if f is not None:
             self.fields[(bk, l)].add(f)
+            self._note_field_ty(bk, l, f, p)
         return (bk, l, f)
+
+    def _note_field_ty(self, bk, l, f, p):
+        if (bk, l, f) in self.field_ty:
+            return
+        for e in p["pr"]:
+            if isinstance(e, dict) and "f" in e:
+                self.field_ty[(bk, l, f)] = e.get("ty", "")
+                return
+
+    def node_type(self, n):
+        if n[0] == "F":
+            return ""
+        if n[2] is not None and n[2] != "*":
+            return self.field_ty.get(n, "")
+        return self.bodies[n[0]].locals[n[1]]["ty"]
 
     def read_nodes(self, bk, p):
         """Nodes whose value a read of place p depends on (the place itself + index locals)."""
@@ -121,6 +141,7 @@ class FlowGraph:
             out.append((bk, l, "*"))
         else:
             self.fields[(bk, l)].add(f)
+            self._note_field_ty(bk, l, f, p)
             out.append((bk, l, f))
         for il in index_locals(p["pr"]):
             out.append((bk, il, None))
@@ -301,6 +322,11 @@ class FlowGraph:
         for sn in srcs:
             for d in dsts:
                 self.add(sn, d, kind, bk, bi, si, info)
+        if k == "ref" and r.get("m") == "mut":
+            # data written through the borrow reaches the borrowed place
+            for sn in srcs:
+                for d in dsts:
+                    self.add(d, sn, "alias", bk, bi, si, None)
 
     def _is_mut_ref_operand(self, bk, b, o):
         ty = o["p"].get("ty", "")
@@ -378,13 +404,33 @@ class FlowGraph:
                 for dn in dsts:
                     self.add((ck, 0, None), dn, "ret", bk, bi, "t", {"names": names})
                     self.add((ck, 0, "*"), dn, "ret", bk, bi, "t", {"names": names})
+            # summary edge for plain (non-closure) local callees: result may depend on the arguments.
+            # Only used by body-local slices (kind "lcall"); whole-program queries see the precise
+            # callarg/ret edges as well.
+            if all(self.bodies[ck].kind != "Closure" for ck in targets):
+                for ai, o in enumerate(args):
+                    for sn in self.operand_reads(bk, o):
+                        for dn in dsts:
+                            self.add(sn, dn, "lcall", bk, bi, "t", {"names": names, "arg": ai})
         else:
             prim = any(n in self.primitives for n in names)
             kind = "shape" if shape else ("prim" if prim else "call")
+            dty = t["d"].get("ty", "")
+            mut_plumb = (not prim) and ("&mut " in dty or "IterMut" in dty or "ChunksMut" in dty) and d.rsplit("::", 1)[-1] in MUT_PLUMBING
             for ai, o in enumerate(args if not prim else []):
                 for sn in self.operand_reads(bk, o):
                     for dn in dsts:
                         self.add(sn, dn, kind, bk, bi, "t", {"names": names, "arg": ai})
+                        if mut_plumb and (ai == 0 or d.rsplit("::", 1)[-1] == "zip"):
+                            self.add(dn, sn, "alias", bk, bi, "t", {"names": names, "arg": ai})
+                # unknown referent of a &mut argument: the reference value itself carries the write
+                if not prim and o["k"] in ("copy", "move") and o["p"]["ty"].startswith("&mut ") and not self._referent_nodes(bk, o["p"]):
+                    for aj, o2 in enumerate(args):
+                        if aj == ai:
+                            continue
+                        for sn in self.operand_reads(bk, o2):
+                            for tn in self.operand_reads(bk, o):
+                                self.add(sn, tn, "mutarg2", bk, bi, "t", {"names": names, "arg": aj})
                 # extern callee may write through &mut args
                 if not prim and o["k"] in ("copy", "move") and o["p"]["ty"].startswith("&mut "):
                     for tn in self._referent_nodes(bk, o["p"]):
@@ -409,8 +455,11 @@ class FlowGraph:
                     self.add((ck, 0, "*"), dn, "closret", bk, bi, "t", {"names": names})
 
     # ---------------------------------------------------------------- queries
-    def forward(self, seeds, edge_ok=None, node_ok=None):
-        """Forward reachability.  Returns dict node -> predecessor edge (None for seeds)."""
+    OPT_IN = frozenset(["alias", "lcall", "mutarg2"])
+
+    def forward(self, seeds, edge_ok=None, node_ok=None, local=False):
+        """Forward reachability.  Returns dict node -> predecessor edge (None for seeds).
+        local=True also follows the opt-in summary/alias edges meant for body-local slices."""
         seen = {}
         st = []
         for s in seeds:
@@ -422,6 +471,8 @@ class FlowGraph:
             for e in self.out.get(n, ()):
                 if e.dst in seen:
                     continue
+                if not local and e.kind in self.OPT_IN:
+                    continue
                 if edge_ok is not None and not edge_ok(e):
                     continue
                 if node_ok is not None and not node_ok(e.dst):
@@ -430,7 +481,7 @@ class FlowGraph:
                 st.append(e.dst)
         return seen
 
-    def backward(self, seeds, edge_ok=None, node_ok=None):
+    def backward(self, seeds, edge_ok=None, node_ok=None, local=False):
         seen = {}
         st = []
         for s in seeds:
@@ -441,6 +492,8 @@ class FlowGraph:
             n = st.pop()
             for e in self.inn.get(n, ()):
                 if e.src in seen:
+                    continue
+                if not local and e.kind in self.OPT_IN:
                     continue
                 if edge_ok is not None and not edge_ok(e):
                     continue
